@@ -370,8 +370,14 @@ impl<'tcx> Ex<'tcx> {
                 "ty" => self.ty(place.ty(&body.local_decls, self.tcx).ty)}
             }
             TerminatorKind::Call { func, args, destination, target, unwind: u, fn_span, .. } => {
-                let fj = self.operand(func, body, owner);
+                let mut fj = self.operand(func, body, owner);
                 let fty = func.ty(&body.local_decls, self.tcx);
+                // indirect call through a local that holds a function item: the callee is still known from the type
+                if !matches!(func, Operand::Constant(_)) {
+                    if let ty::FnDef(def, args) = fty.kind() {
+                        fj = obj! {"const" => obj!{"ty" => self.ty(fty), "fn" => self.fn_ref(*def, args, owner), "via_local" => J::Bool(true)}};
+                    }
+                }
                 let argsj = J::Arr(args.iter().map(|a| self.operand(&a.node, body, owner)).collect());
                 let argtys = J::Arr(args.iter().map(|a| self.ty(a.node.ty(&body.local_decls, self.tcx))).collect());
                 obj! {"k" => s("call"), "func" => fj, "fty" => self.ty(fty), "args" => argsj, "argtys" => argtys,
